@@ -78,6 +78,7 @@ type Ctx struct {
 	filePkg   map[*ast.File]*packages.Package
 	xb        *xbuilder
 	posCtx     *Ctx
+	roles      map[string]*ssa.Function
 	allowRetry bool
 	readerSide map[*ssa.Function]bool
 }
